@@ -223,5 +223,81 @@ func checkC02(r *Report, known []Finding) {
 		"multi-byte, ill-formed, long > 100 bytes); the engines underneath are tied to the proved reference by the C14 check; non-trivial = a match exists; distinct by pattern"
 	obs := append(obsFind(), obsReader()[1])
 	runE2E(r, known, e2eSpec{prop: "C02", obs: obs, np: 1500, nh: 10, npT: 20000, nhT: 16, nontriv: func(w string) bool { return w != "nil" && w != `""` }})
+	c02ReverseTie(r)
 	replayKnownExamples(r, known, "C02")
+}
+
+// c02ReverseTie: the Lean transliteration of nfa/reverse.go (Cx.Rev.reverse) must produce, state by state, the automaton the
+// real nfa.ReverseAnchored / nfa.Reverse build, and the hypotheses of the reversal theorem (RevHyp) must hold for the forward
+// automaton; then C02_reverse_automaton_language applies to that automaton for every haystack.
+func c02ReverseTie(r *Report) {
+	np := 220
+	if r.Tier == "thorough" {
+		np = 2500
+	}
+	root := NewRNG(r.Seed)
+	type cs struct{ p, kind, req, want string }
+	var cases []cs
+	for i := 0; i < np; i++ {
+		rng := root.Fork(0x4E7 + uint64(i))
+		p := patternSource(rng, i, GenOpts{MaxDepth: 3, NoLook: true})
+		if i < 8 {
+			p = []string{`z*azb`, `a*b*c`, `(?:ab)*c`, `[a-z]*keyword`, `(a|ab)*c`, `(?:xa|y[a-c])e`, `é*x`, `a.+b`}[i]
+		}
+		ast, err := syntax.Parse(p, syntax.Perl)
+		if err != nil || featuresOf(ast).WordB || featuresOf(ast).LineA || featuresOf(ast).TextA {
+			continue
+		}
+		var n *nfa.NFA
+		if guard(10*time.Second, func() string {
+			var e error
+			n, e = nfa.NewDefaultCompiler().Compile(p)
+			if e != nil {
+				return "ERR"
+			}
+			return ""
+		}) != "" || n == nil || n.States() > 300 {
+			continue
+		}
+		d := dumpNFA(n)
+		cases = append(cases, cs{p, "hyp", "rev hyps " + d, "true"})
+		for _, anch := range []int{1, 0} {
+			var rv *nfa.NFA
+			if guard(10*time.Second, func() string {
+				if anch == 1 {
+					rv = nfa.ReverseAnchored(n)
+				} else {
+					rv = nfa.Reverse(n)
+				}
+				return ""
+			}) != "" || rv == nil {
+				continue
+			}
+			cases = append(cases, cs{p, map[int]string{1: "ReverseAnchored", 0: "Reverse"}[anch], fmt.Sprintf("rev nfa %d %s", anch, d), dumpNFA(rv)})
+		}
+		r.Case("rev\x00"+p, true)
+	}
+	var reqs []string
+	for _, c := range cases {
+		reqs = append(reqs, c.req)
+	}
+	ans, err := RunLean(reqs)
+	if err != nil || len(ans) != len(reqs) {
+		r.Violate(fmt.Sprintf("Lean driver failed on the reverse-automaton tie: %v", err), map[string]any{"correspondence": "Cx.Rev vs nfa/reverse.go"}, true)
+		return
+	}
+	t := r.Tie("Lean transliteration of nfa/reverse.go == nfa.ReverseAnchored / nfa.Reverse, state by state (and RevHyp holds)")
+	for i, c := range cases {
+		t.Cases++
+		got := ans[i]
+		if c.kind == "hyp" {
+			got = strings.SplitN(got, ",", 2)[0]
+		}
+		if got == c.want {
+			continue
+		}
+		t.Disagreements++
+		r.Violate(fmt.Sprintf("reverse automaton of %q (%s): the code and the Lean transliteration differ: code=%.120s lean=%.120s", c.p, c.kind, c.want, got),
+			map[string]any{"pattern": c.p, "kind": c.kind, "request": c.req, "code": c.want, "lean": got, "correspondence": "Cx.Rev.reverse vs nfa/reverse.go"}, true)
+	}
 }
